@@ -527,10 +527,15 @@ func (h *handler1) handleConnect(ctx context.Context, snConnect *snPkts1.Connect
 		return h.snSend(reply)
 	}
 
-	if h.state.Get() == util.StateAwake {
+	// A sleeping client returns to the active state with CONNECT.
+	if state := h.state.Get(); state == util.StateAwake || state == util.StateAsleep {
+		// Must be set before snSend otherwise the packets will be queued...
 		h.setState(util.StateActive)
 		reply := snPkts1.NewConnack(snPkts1.RC_ACCEPTED)
-		return h.snSend(reply)
+		if err := h.snSend(reply); err != nil {
+			return err
+		}
+		return h.flushPktBuffer()
 	}
 
 	// The MQTT-SN specification does not explicitly forbid zero keepalive
@@ -779,13 +784,16 @@ func (h *handler1) handleMqttSn(ctx context.Context, pkt snPkts.Packet) error {
 		if h.state.Get() == util.StateAsleep {
 			// Must be set before snSend otherwise the packets will be queued...
 			h.setState(util.StateAwake)
-			for _, m2 := range h.pktBuffer {
-				if err := h.snSend(m2); err != nil {
-					return err
-				}
+			if err := h.flushPktBuffer(); err != nil {
+				return err
 			}
-			h.pktBuffer = nil
-			return h.snSend(snPkts1.NewPingresp())
+			if err := h.snSend(snPkts1.NewPingresp()); err != nil {
+				return err
+			}
+			// The client goes back to sleep after PINGRESP.
+			// See MQTT-SN specification v. 1.2, chapter 6.14.
+			h.setState(util.StateAsleep)
+			return nil
 		} else {
 			mqPkt := mqPkts.NewControlPacket(mqPkts.Pingreq).(*mqPkts.PingreqPacket)
 			return h.mqttSend(mqPkt)
@@ -882,6 +890,17 @@ func (h *handler1) startSleepPinger(ctx context.Context) context.CancelFunc {
 		}
 	})
 	return cancel
+}
+
+// Send the packets buffered for a sleeping client.
+func (h *handler1) flushPktBuffer() error {
+	for _, pkt := range h.pktBuffer {
+		if err := h.snSend(pkt); err != nil {
+			return err
+		}
+	}
+	h.pktBuffer = nil
+	return nil
 }
 
 func (h *handler1) snSend(pkt snPkts.Packet) error {
